@@ -28,7 +28,7 @@ def generate(tier, seed):
                           "cost": 120 if name in sources.PROTEINS else 5})
     n = 450 if tier == "quick" else 25000
     for k in range(n):
-        cases.append({"kind": "built", "mode": ("subset", "subset", "all", "single", "ghost", "ghost-only")[k % 6],
+        cases.append({"kind": "built", "mode": ("subset", "subset", "all", "single", "ghost", "ghost-only", "pair", "pair")[k % 8],
                       "seed": "%d:b:%d" % (seed, k), "cost": 16})
     for k in range(40 if tier == "quick" else 2500):
         cases.append({"kind": "two-files", "mode": "two-files", "seed": "%d:tf:%d" % (seed, k), "cost": 30})
@@ -106,7 +106,10 @@ def run_case(case, tier):
         recs = sources.no_water(sources.repo_recs(case["file"]))
         desc["file"] = case["file"]
     else:
-        if rng.random() < 0.5:
+        if case["mode"] == "pair" and rng.random() < 0.8:
+            from .c15 import cluster_cutout
+            recs = cluster_cutout(rng)
+        elif rng.random() < 0.5:
             recs, d = sources.chimera(rng, allow_blank=False)
         else:
             recs = sources.random_small_structure(rng, 60, 800)
@@ -114,6 +117,18 @@ def run_case(case, tier):
         d2 = {}
         recs = c01.edit_layout(recs, rng, d2)
         desc["edits"] = d2.get("edits")
+        if rng.random() < 0.25:
+            # a ligand of the fragment library (amines, amidinium, guanidinium, carboxylate, thiol, phosphate ...):
+            # hetero residues can be listed too
+            from .. import fragments
+            from .c16 import titratable_anchor
+            fname = rng.choice(sorted(fragments.FRAGMENTS))
+            frag, _e, _d = fragments.place_near(recs, fname, rng, anchor=titratable_anchor(recs, rng),
+                                                dist_A=rng.choice((3.0, 3.5, 4.5, 6.0)), min_clear_A=2.7)
+            if frag and not any(r.raw is None and r.chain == "L" for r in recs):
+                recs = recs + frag
+                classes.append("ligand:" + fname)
+                desc["ligand"] = fname
     if any(r.raw is None and r.chain == " " for r in recs):
         # the option has no syntax for a blank chain identifier: give that chain an unused letter
         used = {r.chain for r in recs if r.raw is None}
@@ -144,13 +159,41 @@ def run_case(case, tier):
                         break
         classes.append("mode:ghost-only")
         return util.finish(case, viol, counts, classes, True, desc)
+    if mode == "pair":
+        # one member of a hydrogen-bonded pair of two acids / two bases is listed, its partner is not
+        probe = obs.run_single(pdbio.dump(recs), write_pka=False)
+        cands = []
+        if not probe.exc:
+            conf = probe.rec["confs"][probe.rec["names"][0]]
+            byk = {tuple(h["akey"]): h for h in conf["groups"] if h["titratable"]}
+            for h in conf["groups"]:
+                if not h["titratable"]:
+                    continue
+                for dd in h["det"]["sidechain"]:
+                    q = byk.get(tuple(dd[0]))
+                    if q is not None and q["charge"] == h["charge"] and q["model_pka"] != h["model_pka"]:
+                        r1, r2 = (h["aid"][1], h["aid"][2], h["aid"][3]), (q["aid"][1], q["aid"][2], q["aid"][3])
+                        if r1 != r2 and r1 in res and r2 in res:
+                            cands.append((r1, r2))
+        if cands:
+            r1, r2 = rng.choice(cands)
+            others = [r for r in res if r not in (r1, r2)]
+            L = [r1] + rng.sample(others, min(len(others), rng.choice((0, 0, 2))))
+            classes.append("pair-member-listed")
+        else:
+            mode = "single"
     if mode == "all":
         L = list(res)
+    elif mode == "pair":
+        pass
     elif mode == "single":
         L = [rng.choice(res)]
     else:
         k = rng.choice((2, 5, len(res) // 4 or 1, len(res) // 2 or 1, max(1, len(res) - 1)))
         L = rng.sample(res, min(len(res), k))
+    if desc.get("ligand") and ("L", 900, " ") in res and ("L", 900, " ") not in L and rng.random() < 0.7 and mode != "all":
+        L = L + [("L", 900, " ")]
+        classes.append("ligand-listed")
     ghosts = []
     if mode == "ghost" or rng.random() < 0.2:
         ghosts = [("Q", 5, " "), (L[0][0], 9990, " "), (L[0][0], L[0][1], "Z" if L[0][2] != "Z" else "Y")]
@@ -185,6 +228,17 @@ def run_case(case, tier):
                 viol.append({"cls": "unlisted-group-titrates", "msg": "%s: %s is titratable but %r is not in the list" % (cname, g["label"], resid)})
             if resid not in Lset and g["use"]:
                 viol.append({"cls": "unlisted-group-reported", "msg": "%s: %s is reported but not listed" % (cname, g["label"])})
+    # (a') every group that titrates is written: a row in the determinant table and one in the summary
+    if lim.text:
+        parsed = obs.parse_pka_text(lim.text)
+        srows = [x["label"] for x in obs.parse_summary(parsed["summary"])]
+        drows = [x["label"] for x in obs.parse_det_rows(parsed["det_rows"])]
+        for g in lim.rec["confs"]["AVR"]["groups"]:
+            if g["titratable"] and g["use"] and g["ctg"] is None:
+                counts["written_rows_checked"] = counts.get("written_rows_checked", 0) + 1
+                if g["label"] not in srows or g["label"] not in drows:
+                    viol.append({"cls": "listed-group-not-written", "msg": "%s (%s) titrates under the list but has %d summary / %d table rows" % (
+                        g["label"], g["type"], srows.count(g["label"]), drows.count(g["label"]))})
     # (c) environment unchanged for listed groups
     for cname in lim.rec["names"]:
         fa, _ = obs.index_groups(free.rec["confs"][cname])
@@ -228,6 +282,19 @@ def run_case(case, tier):
                 pres = (d[5][1], d[5][2], d[5][3])
                 if pres not in Lset and d[1][:3] in ("ASP", "GLU", "HIS", "CYS", "TYR", "LYS", "ARG", "N+ ", "C- "):
                     classes.append("hbond-to-unlisted-ionizable-residue")
+                    # an unlisted ionizable residue is a hydrogen-bond partner like any other: between two acids
+                    # (or two bases) the group with the lower model pKa is shifted down and its partner up by the
+                    # same amount - whichever of the two comes first in the file
+                    partners = [h for (kk, _t), h in la.items() if tuple(kk) == tuple(d[0]) and h["charge"] == g["charge"] and not h["titratable"]]
+                    if len(partners) == 1 and partners[0]["model_pka"] != g["model_pka"] and g["label"] not in pen and partners[0]["label"] not in pen:
+                        ptn = partners[0]
+                        tot = sum(x[3] for x in g["det"]["sidechain"] if tuple(x[0]) == tuple(d[0]))
+                        back = sum(x[3] for x in ptn["det"]["sidechain"] if tuple(x[0]) == tuple(g["akey"]))
+                        counts["unlisted_partner_pairs"] = counts.get("unlisted_partner_pairs", 0) + 1
+                        want_neg = g["model_pka"] < ptn["model_pka"]
+                        if abs(tot) > 1e-9 and ((tot < 0) != want_neg or abs(tot + back) > 1e-7):
+                            viol.append({"cls": "unlisted-partner-hbond-rule", "msg": "%s %s (model %.2f) has %+.4f from unlisted %s (model %.2f), which has %+.4f from it" % (
+                                cname, g["label"], g["model_pka"], tot, ptn["label"], ptn["model_pka"], back)})
             if pl:
                 classes.append("partner-determinants-compared")
     # (d) all residues == no option
